@@ -346,6 +346,12 @@ def run_msg_case(name, fields, idx, mut, pipelined=False):
         if iters > 2000:
             bad.append(f'{iters} event-loop iterations for one packet')
         for exc in s.lost:
+            if exc is None and name != 'DISCONNECT':
+                # (a DISCONNECT "by application" is the one message that
+                # ends a connection without an error)
+                bad.append('the connection was closed because of the '
+                           'message but its owner was told a clean close '
+                           '(connection_lost(None)), not an error')
             if exc is not None and not isinstance(exc, Exception):
                 bad.append(f'owner got a non-exception {exc!r}')
             elif exc is not None and not isinstance(
